@@ -78,8 +78,8 @@ PROPS = {
     "C13": {
         "design_ref": "DESIGN.md §3 C13",
         "expected_panics": {"q13_total_records_redeclare_mustpanic": [r"TotalRecords bad transition", r"TotalRecords needs a specific value"]},
-        "functions_encoded": ["helpers::gateway::send::SendChannelConfig::new_with", "utils::power_of_two::{NonZeroU32PowerOfTwo::try_from, get, to_non_zero_usize, non_zero_prev_power_of_two}", "helpers::TotalRecords::{specified,count,is_last,is_specified,is_indeterminate,overwrite}", "helpers::gateway::GatewayConfig::{set_active_work_from_query_config,active_work}"],
-        "bounds": "active = 2^k for k <= 20, configured read size 1..=2^24, record sizes {1,2,3,8,14,16,20,32,4095,4096} (instantiated), all three TotalRecords kinds; all usize for the power-of-two helpers",
+        "functions_encoded": ["helpers::gateway::send::SendChannelConfig::new_with", "utils::power_of_two::{NonZeroU32PowerOfTwo::try_from, get, to_non_zero_usize, non_zero_prev_power_of_two}", "helpers::TotalRecords::{specified,count,is_last,is_specified,is_indeterminate,overwrite}", "helpers::gateway::GatewayConfig::{set_active_work_from_query_config,active_work}", "<helpers::transport::LogErrors as Stream>::poll_next (scripted inner stream)"],
+        "bounds": "one LogErrors step for every kind of next inner item (pending / 2-byte chunk of arbitrary contents / transport error / end) followed by an arbitrary second item; active = 2^k for k <= 20, configured read size 1..=2^24, record sizes {1,2,3,8,14,16,20,32,4095,4096} (instantiated), all three TotalRecords kinds; all usize for the power-of-two helpers",
         "outside_claim": "everything about messages in flight: channel routing, batching, rendezvous, deadlock-freedom of running tasks (tokio, DashMap, spawned streams)",
         "assumptions": ["logging (tracing) and alloc::fmt::format are stubbed out"],
     },
